@@ -77,7 +77,7 @@ func cdsNeedsPush(req *model.PushRequest, proxy *model.Proxy) (*model.PushReques
 	// In both cases, cluster definitions are static when only endpoints change.
 	// However, if ServiceUpdate is also present, the service definition changed
 	// (ports, labels, etc.) and we need to push CDS.
-	headlessOnly := req.Reason.Has(model.HeadlessEndpointUpdate) && !req.Reason.Has(model.ServiceUpdate)
+	headlessOnly := headlessEndpointOnly(req)
 
 	relevantUpdates := make(sets.Set[model.ConfigKey])
 	filtered := false
